@@ -50,7 +50,8 @@ Definition ascii_alnum (c : Z) : bool := is_upper c || is_lower c || is_09 c.
 Definition metas : str := [92; 91; 93; 40; 41; 123; 125; 42; 43; 63; 124; 94; 36; 46].
 Definition is_meta (c : Z) : bool := memc c metas.
 
-(* the items of a bracket expression, after '[' or '[^' *)
+(* the items of a bracket expression, after '[' or '[^'.  (Tests are written with Z.eqb rather than numeral
+   patterns so that they can be reasoned about with a symbolic character.) *)
 Fixpoint parse_br (fuel : nat) (s : str) (first : bool) : option (list britem * str) :=
   match fuel with
   | O => None
@@ -59,30 +60,53 @@ Fixpoint parse_br (fuel : nat) (s : str) (first : bool) : option (list britem * 
         match parse_br f r false with Some (its, r') => Some (b :: its, r') | None => None end in
     match s with
     | [] => None
-    | 93 :: r => if first then continue (BChar 93) r else Some ([], r)
-    | 92 :: x :: r => if Z.eqb x 87 then continue BNotWord r
-                      else if Z.eqb x 115 then continue BSpace r
-                      else if ascii_alnum x then None
-                      else continue (BChar x) r
-    | 92 :: [] => None
-    | c :: 45 :: d :: r => if Z.eqb d 93 then Some ([BChar c; BChar 45], r)
-                           else if Z.eqb d 92 then None
-                           else continue (BRange c d) r
-    | c :: r => continue (BChar c) r
+    | c :: r =>
+      if Z.eqb c 93 then (if first then continue (BChar 93) r else Some ([], r))
+      else if Z.eqb c 92 then
+        match r with
+        | x :: r' => if Z.eqb x 87 then continue BNotWord r'
+                     else if Z.eqb x 115 then continue BSpace r'
+                     else if ascii_alnum x then None
+                     else continue (BChar x) r'
+        | [] => None
+        end
+      else
+        match r with
+        | d1 :: d :: r' =>
+          if Z.eqb d1 45 then
+            (if Z.eqb d 93 then Some ([BChar c; BChar 45], r')
+             else if Z.eqb d 92 then None
+             else continue (BRange c d) r')
+          else continue (BChar c) r
+        | _ => continue (BChar c) r
+        end
     end
   end.
 
 Definition parse_atom (s : str) : option (cset * str) :=
   match s with
-  | 92 :: x :: r => if Z.eqb x 100 then Some (CDigit, r)
-                    else if Z.eqb x 115 then Some (CSpace, r)
-                    else if ascii_alnum x then None
-                    else Some (CLit x, r)
-  | 91 :: 94 :: r => match parse_br (length r) r true with Some (its, r') => Some (CBr true its, r') | None => None end
-  | 91 :: r => match parse_br (length r) r true with Some (its, r') => Some (CBr false its, r') | None => None end
-  | 46 :: r => Some (CAny, r)
-  | c :: r => if is_meta c then None else Some (CLit c, r)
   | [] => None
+  | c :: r =>
+    if Z.eqb c 92 then
+      match r with
+      | x :: r' => if Z.eqb x 100 then Some (CDigit, r')
+                   else if Z.eqb x 115 then Some (CSpace, r')
+                   else if ascii_alnum x then None
+                   else Some (CLit x, r')
+      | [] => None
+      end
+    else if Z.eqb c 91 then
+      match r with
+      | x :: r' =>
+        if Z.eqb x 94 then
+          match parse_br (length r') r' true with Some (its, r2) => Some (CBr true its, r2) | None => None end
+        else
+          match parse_br (length r) r true with Some (its, r2) => Some (CBr false its, r2) | None => None end
+      | [] => None
+      end
+    else if Z.eqb c 46 then Some (CAny, r)
+    else if is_meta c then None
+    else Some (CLit c, r)
   end.
 
 (* a maximal run of decimal digits, as a number *)
@@ -99,19 +123,24 @@ Definition starts_quant (s : str) : bool :=
 Definition parse_quant (s : str) : option (Z * option Z * str) :=
   let checked (m : Z) (M : option Z) (r : str) := if starts_quant r then None else Some (m, M, r) in
   match s with
-  | 42 :: r => checked 0 None r
-  | 43 :: r => checked 1 None r
-  | 63 :: r => checked 0 (Some 1) r
-  | 123 :: r =>
-    match read_digits r 0 false with
-    | (Some m, 125 :: r') => checked m (Some m) r'
-    | (Some m, 44 :: r') => match read_digits r' 0 false with
-                            | (Some n, 125 :: r'') => checked m (Some n) r''
-                            | _ => None
-                            end
-    | _ => None
-    end
-  | _ => Some (1, Some 1, s)
+  | [] => Some (1, Some 1, s)
+  | c :: r =>
+    if Z.eqb c 42 then checked 0 None r
+    else if Z.eqb c 43 then checked 1 None r
+    else if Z.eqb c 63 then checked 0 (Some 1) r
+    else if Z.eqb c 123 then
+      match read_digits r 0 false with
+      | (Some m, c2 :: r') =>
+        if Z.eqb c2 125 then checked m (Some m) r'
+        else if Z.eqb c2 44 then
+          match read_digits r' 0 false with
+          | (Some n, c3 :: r'') => if Z.eqb c3 125 then checked m (Some n) r'' else None
+          | _ => None
+          end
+        else None
+      | _ => None
+      end
+    else Some (1, Some 1, s)
   end.
 
 (* quantified atoms up to (and including) the closing character: ')' inside a group, '$' at the top *)
@@ -121,43 +150,45 @@ Fixpoint parse_seq (fuel : nat) (top : bool) (s : str) : option (list item * str
   | S f =>
     match s with
     | [] => None
-    | 36 :: r => if top then Some ([], r) else None
-    | 41 :: r => if top then None else Some ([], r)
-    | 40 :: r =>
-      if top then
-        match parse_seq f false r with
-        | Some (inner, r1) =>
-          if starts_quant r1 then None else
-          match parse_seq f true r1 with Some (rest, r2) => Some (inner ++ rest, r2) | None => None end
-        | None => None
-        end
-      else None
-    | _ =>
-      match parse_atom s with
-      | Some (cs, r1) =>
-        match parse_quant r1 with
-        | Some (m, M, r2) =>
-          match parse_seq f top r2 with
-          | Some (rest, r3) => Some ({| i_set := cs; i_min := m; i_max := M |} :: rest, r3)
+    | c :: r =>
+      if Z.eqb c 36 then (if top then Some ([], r) else None)
+      else if Z.eqb c 41 then (if top then None else Some ([], r))
+      else if Z.eqb c 40 then
+        (if top then
+           match parse_seq f false r with
+           | Some (inner, r1) =>
+             if starts_quant r1 then None else
+             match parse_seq f true r1 with Some (rest, r2) => Some (inner ++ rest, r2) | None => None end
+           | None => None
+           end
+         else None)
+      else
+        match parse_atom s with
+        | Some (cs, r1) =>
+          match parse_quant r1 with
+          | Some (m, M, r2) =>
+            match parse_seq f top r2 with
+            | Some (rest, r3) => Some ({| i_set := cs; i_min := m; i_max := M |} :: rest, r3)
+            | None => None
+            end
           | None => None
           end
         | None => None
         end
-      | None => None
-      end
     end
   end.
 
 (* '^' items '$' and nothing after *)
 Definition parse_regex (s : str) : option (list item) :=
   match s with
-  | 94 :: r => match parse_seq (S (length r)) true r with Some (items, []) => Some items | _ => None end
-  | _ => None
+  | c :: r => if Z.eqb c 94 then match parse_seq (S (length r)) true r with Some (items, []) => Some items | _ => None end
+              else None
+  | [] => None
   end.
 
 (* re.match(text, s) with DOTALL|UNICODE, as rexpy calls it: '$' also matches just before a final newline *)
 Definition drop_final_newline (s : str) : option str :=
-  match rev s with 10 :: r => Some (rev r) | _ => None end.
+  match rev s with c :: r => if Z.eqb c 10 then Some (rev r) else None | [] => None end.
 
 Definition re_model_match (ct : chartab) (text s : str) : option bool :=
   match parse_regex text with
